@@ -51,6 +51,8 @@ def h_triple(params, vals, ctx):
         else:
             chars.append(fixed[pos])
     s = "".join(chars)
+    if params.get("len") is not None:
+        s = s[:params["len"]]          # a shorter literal: padded with blanks on the right
     d = params.get("dir", ".rad50")
     text = f'{d} "{s}"\n' if params.get("via") != "caretR" else f".word ^R{s}\n"
     if params.get("via") == "caretR":
@@ -61,7 +63,7 @@ def h_triple(params, vals, ctx):
     if o.status != "ok" or o.errors or len(o.code) != 2:
         return False
     w = word_at(o.code, 0)
-    up = s.upper()
+    up = (s.upper() + "   ")[:3]
     return w == (ALPHABET.index(up[0]) * 40 + ALPHABET.index(up[1])) * 40 + ALPHABET.index(up[2]) and unpack(w) == up
 
 
@@ -89,16 +91,28 @@ def h_pack(params, vals, ctx):
 def h_code(params, vals, ctx):
     """'.rad50 <n>' : accepted iff 0 <= n < 40; mixed with text chunks."""
     v = vals["V"]
-    text = '.rad50 "A" <{V}> "B"\n'
+    shape = params.get("shape", "mid")
+    text, want = {
+        "mid": ('.rad50 "A" <{V}> "B"\n', [(1 * 40 + v) * 40 + 2]),
+        "alone": ('.rad50 <{V}>\n', [v * 1600]),
+        "first": ('.rad50 <{V}> "AB"\n', [(v * 40 + 1) * 40 + 2]),
+        "last": ('.rad50 "AB" <{V}>\n', [(1 * 40 + 2) * 40 + v]),
+        "twice": ('.rad50 <{V}> <{V}>\n', [(v * 40 + v) * 40]),
+        "fourth": ('.rad50 "ABC" <{V}>\n', [(1 * 40 + 2) * 40 + 3, v * 1600]),
+        "empty-text": ('.rad50 "" <{V}> ""\n', [v * 1600]),
+    }[shape]
     o = assemble([("a.mac", text)], vals, route=ctx.route)
     ctx.observe_outcome(o)
     accept = 0 <= v < 40
     ctx.reach(accept)
     if not accept:
         return o.status == "failed" and "value-out-of-bounds" in o.error_ids
-    if o.status != "ok" or o.errors or len(o.code) != 2:
+    if o.status != "ok" or o.errors or len(o.code) != 2 * len(want):
         return False
-    return word_at(o.code, 0) == (1 * 40 + v) * 40 + 2
+    for k, w in enumerate(want):
+        if not (word_at(o.code, 2 * k) == w):
+            return False
+    return True
 
 
 def h_reject(params, vals, ctx):
@@ -160,6 +174,9 @@ def obligations(tier, seed):
                           vars={f"I{pos}": "int", f"L{pos}": "int"}, timeout=300))
     obs.append(Ob(oid="caretR/pos1", harness=P + "h_triple", params={"sym": [1], "fixed": ["A", "?", "9"], "via": "caretR"},
                   vars={"I1": "int", "L1": "int"}, timeout=300, note="^R literal: characters are concrete text per path (side check)"))
+    for pos, fixed, ln in ((0, ["?", "B", "9"], None), (2, ["A", "B", "?"], None), (0, ["?", "B", "9"], 1), (1, ["A", "?", "9"], 2)):
+        obs.append(Ob(oid=f"caretR/pos{pos}" + (f"/len{ln}" if ln else ""), harness=P + "h_triple", params={"sym": [pos], "fixed": fixed, "via": "caretR", "len": ln},
+                      vars={f"I{pos}": "int", f"L{pos}": "int"}, timeout=300, note="^R literal ending in / consisting of each alphabet character"))
     if tier == "thorough":
         for shard in range(40):
             for shard1 in range(40):
@@ -177,6 +194,8 @@ def obligations(tier, seed):
                       vars={"N": "int", "I0": "int", "I1": "int", "I2": "int"}, timeout=900, per_path=60, twin=(tier != "thorough" or shard1 == 0),
                       pre=f"every 3-character string starting with letters #{shard} #{shard1}"))
     obs.append(Ob(oid="code/<n>", harness=P + "h_code", params={}, vars={"V": "int"}, timeout=200, pre="every integer n"))
+    for shape in ("alone", "first", "last", "twice", "fourth", "empty-text"):
+        obs.append(Ob(oid=f"code/<n>/{shape}", harness=P + "h_code", params={"shape": shape}, vars={"V": "int"}, timeout=200, pre="every integer n"))
     obs.append(Ob(oid="reject/outside-alphabet", harness=P + "h_reject", params={}, vars={"S_1": "str"}, timeout=900))
     for n in range(0, 13):
         obs.append(Ob(oid=f"length/{n}", harness=P + "h_length", params={"n": n}, vars={"I": "int"}, timeout=300))
